@@ -65,7 +65,7 @@ Definition state_within (s : state) : bool :=
   ostack_within (exec s) && ostack_within (ints s) && ostack_within (floats s) && ostack_within (bools s).
 
 (* C02: an error hands back the input state; recoverable <-> operand/arithmetic fault, fatal <-> overflow *)
-Definition holds_c02 (mode : Z) (s : state) (o : observation) : bool :=
+Definition holds_c02 (mode : Z) (s : state) (_ : list final) (o : observation) : bool :=
   match o with
   | OPanic => false
   | OOut c os k same =>
@@ -76,17 +76,19 @@ Definition holds_c02 (mode : Z) (s : state) (o : observation) : bool :=
     end
   end.
 
-(* C03: no panic, every stack within its capacity, an error only for overflow *)
-Definition holds_c03 (mode : Z) (s : state) (o : observation) : bool :=
+(* C03: no panic, every stack within its capacity, an error only for overflow - and only WHEN a stack would
+   overflow: the semantics (in one of its admissible readings) must end in an overflow too *)
+Definition is_fatal (f : final) : bool := match f with FFatal _ _ => true | _ => false end.
+Definition holds_c03 (mode : Z) (s : state) (alts : list final) (o : observation) : bool :=
   match o with
   | OPanic => false
   | OOut c os k _ =>
     (negb (state_within s) || sizes_within os) &&
-    match c with 0 => true | 1 => Z.eqb mode 1 | 2 => Z.eqb k 2 | _ => false end
+    match c with 0 => true | 1 => Z.eqb mode 1 | 2 => Z.eqb k 2 && existsb is_fatal alts | _ => false end
   end.
 
 Definition intact (o : observation) : bool := match o with OOut _ _ _ same => same | OPanic => true end.
-Definition judge_with (strict : bool) (holds : Z -> state -> observation -> bool) (t : tree) : option (list Z) :=
+Definition judge_with (strict : bool) (holds : Z -> state -> list final -> observation -> bool) (t : tree) : option (list Z) :=
   match t with
   | L [L [A mode; _; s; extra]; o] =>
     olet s := dec_state s in olet o := dec_obs o in
@@ -94,13 +96,13 @@ Definition judge_with (strict : bool) (holds : Z -> state -> observation -> bool
     match (if strict && negb (intact o) then None else first_match alts o) with
     | Some f => Some (0 :: out_of f)
     | None =>
-      Some ((if holds mode s o then 1 else 2) :: match alts with f :: _ => out_of f | [] => [] end)
+      Some ((if holds mode s alts o then 1 else 2) :: match alts with f :: _ => out_of f | [] => [] end)
     end
   | _ => None
   end.
 
 (* C01: the property IS equality with the semantics *)
-Definition judge_c01 := judge_with true (fun _ _ _ => false).
+Definition judge_c01 := judge_with true (fun _ _ _ _ => false).
 Definition judge_c02 := judge_with true holds_c02.
 Definition judge_c03 := judge_with false holds_c03.
 
